@@ -88,7 +88,9 @@ Init ==
     /\ ovr \in (IF policy = "recompute" /\ (\A i \in 1..4 : sur[i] = 0) /\ trailing = <<>> THEN {0, 14, 35} ELSE {0})
     /\ (policy = "recompute" => totmode = "zero")
     \* a damaged copy for the reader: the declared length of section 1 or 4 made one octet shorter
-    /\ shrink \in (IF policy = "recompute" /\ \A i \in 1..4 : sur[i] = 0 THEN {0, 1, 4} ELSE {0})
+    \* 5: the last octet of section 4 is REMOVED and every length adjusted - a consistent message whose data
+    \*    section may now be shorter than what the template consumes (an overrun of 1..8 bits)
+    /\ shrink \in (IF policy = "recompute" /\ \A i \in 1..4 : sur[i] = 0 THEN {0, 1, 4, 5} ELSE {0})
     /\ stage = 0 /\ octs = <<>> /\ starts = <<>> /\ outcome = "" /\ rpos = 0 /\ rerr = FALSE /\ rlen = <<>>
 
 Writing == outcome = "" /\ stage <= 6
@@ -126,6 +128,11 @@ PatchTotal ==
 
 (* ---- reader: over the written message followed by the trailing bytes ----------- *)
 Shrunk == IF shrink = 0 THEN octs
+          ELSE IF shrink = 5 THEN
+               LET at == starts[5]            \* section 4
+                   n == Len(octs)
+                   cut == SubSeq(octs, 1, starts[6] - 1) \o SubSeq(octs, starts[6] + 1, n)     \* without the octet before 7777
+               IN SubSeq(cut, 1, 4) \o U(n - 1, 3) \o SubSeq(cut, 8, at) \o U(U3(octs, at) - 1, 3) \o SubSeq(cut, at + 4, n - 1)
           ELSE LET at == starts[shrink + 1] IN SubSeq(octs, 1, at) \o U(U3(octs, at) - 1, 3) \o SubSeq(octs, at + 4, Len(octs))
 Input == leading \o Shrunk \o trailing
 (* offset of the first start signature in the input: where the reader begins *)
@@ -180,11 +187,13 @@ HonourRefusesShorter ==
     (policy = "honour" /\ \E i \in 1..4 : Present(i) /\ sur[i] # 99 /\ sur[i] < 0) => outcome # "Done"
 HonourFillsLonger ==
     (Written /\ policy = "honour") => \A i \in 1..4 : (Present(i) /\ sur[i] \in 1..98) => WrittenLen(i) = RealLen(i) + sur[i]
+(* removing the last octet of section 4 is harmless exactly when the data still fit (a pad octet went) *)
+TruncatedDataIsError == (shrink = 5 /\ stage = 13) => (rerr <=> 8 * (WrittenLen(4) - 1) < 8 * 4 + nb)
 ReaderConsumesExactly == (stage = 13 /\ ~rerr /\ shrink = 0) => rpos = Len(leading) + Len(octs) /\ rlen[1] = Len(octs)
 ReaderStartsAtMessage == stage >= 8 => Base = Len(leading)
 OverrideOnlyChangesVersion == (Written /\ ovr # 0) => octs[8 + (IF ed = 4 THEN 14 ELSE 11)] = ovr
 ReaderNeverFailsOnWritten == (stage >= 7 /\ shrink = 0) => ~rerr        \* what the writer emits, the reader accepts
-ShortDeclaredIsError == (shrink # 0 /\ stage = 13) => rerr             \* a shrunk section never reads through
+ShortDeclaredIsError == (shrink \in {1, 4} /\ stage = 13) => rerr             \* a shrunk section never reads through
 
 Case == [leading |-> leading, ovr |-> ovr, ed |-> ed, l2 |-> l2, nb |-> nb, xo |-> xo, ids |-> Ids, policy |-> policy, sur |-> sur, totmode |-> totmode,
          trailing |-> trailing, outcome |-> outcome, shrink |-> shrink, input |-> IF outcome = "Done" THEN Input ELSE <<>>, rerr |-> rerr,
